@@ -169,6 +169,40 @@ pub fn run_family(name: &str, thorough: bool) -> Vec<Value> {
             forgery::run_suite::<Sha>("sha256", &mut p.out);
             forgery::run_suite::<Shake>("shake256", &mut p.out);
         }
+        "blind_counts" => {
+            // blind_proof_verify with counts / indexes that do not fit the proof
+            let kp = KP::<Sha>::generate(IKM, None, None).unwrap();
+            let m = msgs(2);
+            let cm = msgs(2);
+            let (com, blind) = Com::<Sha>::commit(Some(&cm)).unwrap();
+            let bsig = BSig::<Sha>::blind_sign(kp.private_key(), kp.public_key(), Some(&com.to_bytes()), Some(HEADER), Some(&m)).unwrap();
+            let proof = Pok::<Sha>::blind_proof_gen(kp.public_key(), &bsig.to_bytes(), Some(HEADER), Some(PH), Some(&m), Some(&cm), Some(&[0usize]), Some(&[1usize]), Some(&blind)).unwrap();
+            let pb = proof.to_bytes();
+            let pkb = kp.public_key().to_bytes();
+            let cases: Vec<(usize, Vec<usize>, Vec<usize>, &str)> = vec![
+                (2, vec![0], vec![1], "honest"),
+                (100, vec![0], vec![1], "L larger than the proof allows"),
+                (usize::MAX, vec![0], vec![1], "L == usize::MAX"),
+                (2, vec![0], vec![usize::MAX], "commitment index usize::MAX"),
+                (2, vec![usize::MAX], vec![1], "index usize::MAX"),
+                (0, vec![], vec![], "L = 0, nothing disclosed"),
+            ];
+            for (l, di, dj, d) in cases {
+                let (pb2, pkb2, m2, cm2) = (pb.clone(), pkb.clone(), m.clone(), cm.clone());
+                let (di2, dj2) = (di.clone(), dj.clone());
+                let outcome = guard(move || {
+                    let pk = BBSplusPublicKey::from_bytes(&pkb2).unwrap();
+                    let p = Pok::<Sha>::from_bytes(&pb2).unwrap();
+                    let dm: Vec<Vec<u8>> = di2.iter().filter(|i| **i < m2.len()).map(|i| m2[*i].clone()).collect();
+                    let dcm: Vec<Vec<u8>> = dj2.iter().filter(|i| **i < cm2.len()).map(|i| cm2[*i].clone()).collect();
+                    match p.blind_proof_verify(&pk, Some(HEADER), Some(PH), Some(l), Some(&dm), Some(&dcm), Some(&di2), Some(&dj2)) {
+                        Ok(()) => "ok:verified".to_string(),
+                        Err(e) => format!("err:{e:?}"),
+                    }
+                });
+                p.out.push(json!({"id": d, "call": "blind_proof_verify", "inputs": [format!("{:x}", l), format!("{:?}", di), format!("{:?}", dj)], "outcome": outcome, "tags": ["counts"]}));
+            }
+        }
         "update_signature" => {
             let kp = KP::<Sha>::generate(IKM, None, None).unwrap();
             let m = msgs(3);
